@@ -280,6 +280,13 @@ func (b *bufferedSectionWriter) Flush() error {
 
 func (b *bufferedSectionWriter) Stop() error {
 	if b.stopCh != nil {
+		if b.err == nil {
+			// Wait for and collect the result of the last asynchronous
+			// write, whose error no later Flush() will pick up.
+			if lastWrite, ok := <-b.resCh; ok {
+				b.err = lastWrite.err
+			}
+		}
 		close(b.stopCh)
 		close(b.reqCh)
 		<-b.doneCh
